@@ -626,6 +626,16 @@ func (bh *blipHandler) sendBatchOfChanges(sender *blip.Sender, changeArray [][]a
 			return err
 		}
 
+		// An ISGR push announces the whole batch to its checkpointer here, in feed order and before the peer can answer.
+		// Batches are answered concurrently: one that is answered early must not move the checkpoint past this one.
+		if collectionCtx, err := bh.collections.get(bh.collectionIdx); err == nil && collectionCtx.sgr2PushAddExpectedSeqsCallback != nil {
+			batchSeqs := make([]SequenceID, 0, len(changeArray))
+			for _, change := range changeArray {
+				batchSeqs = append(batchSeqs, change[0].(SequenceID))
+			}
+			collectionCtx.sgr2PushAddExpectedSeqsCallback(batchSeqs...)
+		}
+
 		sendTime := time.Now()
 		if !bh.sendBLIPMessage(sender, outrq) {
 			return ErrClosedBLIPSender
